@@ -24,5 +24,6 @@ Definition dispatch (k : nat) (x : sx) : sx :=
   | 13 => run_pickle_case x
   | 14 => run_factory_case x
   | 15 => run_hsmq_case x
+  | 19 => run_hreent_case x       (* 16, 17, 18: reserved for C11, C13, C07 *)
   | _ => L [N 0]
   end.
